@@ -487,27 +487,12 @@ func c05ForkChoice(c *eng.Ctx, r *eng.Report) {
 	// chainPvGreatThanRemote: true only for Cmp > 0 of (local, remote) prove values or equal and local hash greater
 	pv := c.Func("core", "chainPvGreatThanRemote")
 	if r.Anchor(pv != nil, rule, "core.chainPvGreatThanRemote") {
-		okPV, okHash := false, false
-		for _, re := range eng.Returns(pv) {
-			if eng.RetClass(re.Ret, 0, re.Pred) != "true" {
-				continue
-			}
-			for _, cd := range eng.CondsAt(re.Ret) {
-				m, ok := cd.Cmp()
-				if !ok || m.Via != "Cmp" || m.Op != token.GTR {
-					continue
-				}
-				dx, dy := eng.Desc(m.X), eng.Desc(m.Y)
-				if dx == "chainNextBlock.ProveValue" && dy == "remoteBlock.ProveValue" {
-					okPV = true
-				}
-				if strings.Contains(dx, "chainNextBlock.Hash") && strings.Contains(dy, "remoteBlock.Hash") {
-					okHash = true
-				}
-			}
-		}
-		// the hash tie-break is only reached when the prove values are equal (neither > nor <)
-		r.Check(okPV && okHash, rule, "chainPvGreatThanRemote:shape", c.Pos(pv.Pos()), "local wins only with a strictly greater prove value, or an equal one and a greater hash", fmt.Sprintf("comparison shape changed (prove value Cmp>0 of (local, remote)=%v, hash tie-break=%v)", okPV, okHash))
+		// Decided over the finite set of orderings: the function touches the two blocks only through two three-way
+		// comparisons (prove values, hashes). For each of the 3×3 sign combinations the CFG is walked with the
+		// comparison results fixed, and the returned boolean is compared with the specification
+		//   local wins  <=>  pv(local) > pv(remote)  or  (pv equal and hash(local) > hash(remote)).
+		why := orderTable(pv, "chainNextBlock", "remoteBlock")
+		r.Check(why == "", rule, "chainPvGreatThanRemote:shape", c.Pos(pv.Pos()), "for all 9 orderings of (prove value, hash) the result is: local prove value greater, or equal and local hash greater", "chainPvGreatThanRemote: "+why+": the head can move to (or stay on) the lighter of two siblings")
 	}
 }
 
@@ -628,4 +613,158 @@ func c05HeaderCache(c *eng.Ctx, r *eng.Report) {
 	if n == 0 {
 		r.Pass(rule, "cache:none", "", "no header cache is read by height lookups")
 	}
+}
+
+// orderTable symbolically runs fn for every sign combination of its two
+// three-way comparisons and returns "" when the result always equals
+// pv>0 || (pv==0 && hash>0), signs taken as (local, remote).
+func orderTable(fn *ssa.Function, local, remote string) string {
+	// classify comparison calls: kind ("pv"/"hash") and orientation (+1 local first, -1 remote first)
+	type cmpInfo struct {
+		kind string
+		sign int
+	}
+	cmps := map[ssa.Value]cmpInfo{}
+	for _, s := range eng.Sites(fn) {
+		call, ok := s.Instr.(*ssa.Call)
+		if !ok {
+			continue
+		}
+		n := s.Name()
+		var x, y ssa.Value
+		switch {
+		case strings.HasSuffix(n, "big.Int).Cmp"):
+			x, y = call.Call.Args[0], call.Call.Args[1]
+		case n == "bytes.Compare":
+			x, y = call.Call.Args[0], call.Call.Args[1]
+		default:
+			continue
+		}
+		dx, dy := eng.Desc(x), eng.Desc(y)
+		kind := ""
+		switch {
+		case strings.Contains(dx, ".ProveValue") && strings.Contains(dy, ".ProveValue"):
+			kind = "pv"
+		case strings.Contains(dx, ".Hash") && strings.Contains(dy, ".Hash"):
+			kind = "hash"
+		default:
+			continue
+		}
+		switch {
+		case strings.Contains(dx, local) && strings.Contains(dy, remote):
+			cmps[call] = cmpInfo{kind, 1}
+		case strings.Contains(dx, remote) && strings.Contains(dy, local):
+			cmps[call] = cmpInfo{kind, -1}
+		}
+	}
+	has := map[string]bool{}
+	for _, ci := range cmps {
+		has[ci.kind] = true
+	}
+	if !has["pv"] || !has["hash"] {
+		return fmt.Sprintf("the two three-way comparisons (prove values: %v, hashes: %v) between the local and the coming block were not both found", has["pv"], has["hash"])
+	}
+	var evalInt func(v ssa.Value, pv, hs int) (int, bool)
+	evalInt = func(v ssa.Value, pv, hs int) (int, bool) {
+		if ci, ok := cmps[v]; ok {
+			if ci.kind == "pv" {
+				return ci.sign * pv, true
+			}
+			return ci.sign * hs, true
+		}
+		if k, ok := eng.ConstInt(v); ok {
+			return int(k), true
+		}
+		return 0, false
+	}
+	var evalBool func(v ssa.Value, pv, hs int, from *ssa.BasicBlock) (bool, bool)
+	evalBool = func(v ssa.Value, pv, hs int, from *ssa.BasicBlock) (bool, bool) {
+		switch x := v.(type) {
+		case *ssa.Const:
+			if x.Value != nil {
+				return x.Value.ExactString() == "true", true
+			}
+		case *ssa.UnOp:
+			if x.Op == token.NOT {
+				b, ok := evalBool(x.X, pv, hs, from)
+				return !b, ok
+			}
+		case *ssa.BinOp:
+			l, ok1 := evalInt(x.X, pv, hs)
+			rr, ok2 := evalInt(x.Y, pv, hs)
+			if !ok1 || !ok2 {
+				return false, false
+			}
+			switch x.Op {
+			case token.GTR:
+				return l > rr, true
+			case token.GEQ:
+				return l >= rr, true
+			case token.LSS:
+				return l < rr, true
+			case token.LEQ:
+				return l <= rr, true
+			case token.EQL:
+				return l == rr, true
+			case token.NEQ:
+				return l != rr, true
+			}
+		case *ssa.Phi:
+			for i, p := range x.Block().Preds {
+				if p == from {
+					return evalBool(x.Edges[i], pv, hs, from)
+				}
+			}
+		}
+		return false, false
+	}
+	for _, pv := range []int{-1, 0, 1} {
+		for _, hs := range []int{-1, 0, 1} {
+			want := pv > 0 || (pv == 0 && hs > 0)
+			b := fn.Blocks[0]
+			var from *ssa.BasicBlock
+			steps := 0
+			for {
+				steps++
+				if steps > 200 {
+					return "the walk does not terminate (loop in the comparison function)"
+				}
+				last := b.Instrs[len(b.Instrs)-1]
+				switch t := last.(type) {
+				case *ssa.Return:
+					v := t.Results[0]
+					got, ok := evalBool(v, pv, hs, from)
+					if ph, isPhi := v.(*ssa.Phi); isPhi && ph.Block() == b {
+						got, ok = evalBool(v, pv, hs, from)
+					}
+					if !ok {
+						return "a returned value is not a function of the two comparisons (" + eng.Desc(v) + ")"
+					}
+					if got != want {
+						return fmt.Sprintf("for prove-value order %+d and hash order %+d (local vs coming) it answers %v, the fork-choice rule says %v", pv, hs, got, want)
+					}
+				case *ssa.If:
+					c, ok := evalBool(t.Cond, pv, hs, from)
+					if !ok {
+						return "a branch condition is not a function of the two comparisons (" + eng.Desc(t.Cond) + ")"
+					}
+					from = b
+					if c {
+						b = b.Succs[0]
+					} else {
+						b = b.Succs[1]
+					}
+					continue
+				case *ssa.Jump:
+					from = b
+					b = b.Succs[0]
+					continue
+				default:
+					return "unexpected terminator"
+				}
+				break
+			}
+		}
+	}
+	return ""
 }
